@@ -22,11 +22,11 @@ _p("C01", ["instances", "profiling", "shexing", "filtering", "c06_nt"], ["pipeli
    "profile dictionaries), and the selection/tuning stage never writes a count (frame obligations; the original figure is kept as first comment before the "
    "probability is overwritten). The fold of the step contracts over the triple stream, the nested loops that enumerate (property, kind, cardinality) per "
    "instance, and the rendering of figures into text are covered by the " + MON)
-_p("C02", ["filtering", "shexing", "plumbing_profiler", "c06_nt", "instances"], ["pipeline"],
+_p("C02", ["filtering", "shexing", "grouping", "plumbing_profiler", "c06_nt", "instances"], ["pipeline"],
    "Deductive: the threshold filter creates exactly one statement per candidate with frequency >= threshold (counting recurrence n_pass, boundary case kept) "
    "and nothing below it; MergeableConstraints keeps one slot per member (counting invariant) and merge_group yields one constraint for the property; "
    "_decide_best returns a member of its group. The two O(n^2) grouping loops and empty-shape removal are covered by the " + MON)
-_p("C03", ["shexing", "c06_nt", "instances", "profiling"], ["schemas"],
+_p("C03", ["shexing", "grouping", "c06_nt", "instances", "profiling"], ["schemas"],
    "Deductive: relaxation rule ('?' iff allow_opt and cardinality 1, else '*'; only below 100 %), exact-cardinality generalisation, '+' always offered and "
    "preferred under keep_less_specific unless useless, with the mode off no cardinality is written. Conformance of every instance (ShEx semantics, "
    "recursive references) is decided by an independent validator on schema-consistent graphs: bounded (schemas.py).")
@@ -56,7 +56,7 @@ _p("C08", ["c08_channels", "c06_nt", "c17_min_iri"], ["channels"],
    "check_just_one_not_none inlined from the real source) and the raw-string reader (same lines as a file with the same text: split at LINE FEED only). Parsers "
    "themselves are C06/C07; rdflib, gzip/zip/xz and the file system are assumed. Equality of the extracted shapes across all channels for the same abstract "
    "graph: bounded (channels.py).")
-_p("C09", ["instances", "profiling", "shexing", "c06_nt", "c17_min_iri"], ["pipeline"],
+_p("C09", ["instances", "profiling", "shexing", "grouping", "c06_nt", "c17_min_iri"], ["pipeline"],
    "Deductive: two counting steps commute (lemma over the step contract of pass 2: same counters, same nodes, same class lists in either order); node and "
    "class names are opaque atoms in the verified counting code, so consistent renaming of blank nodes cannot be observed (parametricity of the accepted "
    "encoding); sorting is by probability with the group's members preserved. Permutations and relabelings of whole documents, and the choice under ties: " + MON)
@@ -68,7 +68,7 @@ _p("C11", ["c11_shacl", "c18_state"], ["schemas"],
    "Deductive: both serializers verified against one reference table (cardinality -> min/max, statement type -> value restriction, direction -> path) with an "
    "effect-trace contract on every triple handed to rdflib.Graph.add, fresh blank nodes counted. Loops over shapes/statements and rdflib itself are assumed; "
    "the two documents of one Shaper are compared after parsing: bounded (schemas.py).")
-_p("C12", ["filtering", "c20_config", "c06_nt", "shexing", "c18_state"], ["pipeline"],
+_p("C12", ["filtering", "c20_config", "c06_nt", "shexing", "grouping", "c18_state"], ["pipeline"],
    "Deductive: the threshold is applied once, on raw candidates (filter contracts with the counting recurrence; >= from the statement), the range check of the "
    "argument, frequency = n/N. Monotonicity over pairs of thresholds on whole runs: " + MON)
 _p("C13", ["shexing", "serializers", "c18_state", "plumbing", "c06_nt"], ["pipeline"],
